@@ -66,12 +66,30 @@ def exh1(ctx: Ctx) -> List[Ob]:
     if len(vals) < 8:
         raise AnalysisError("IterMethod has fewer than 8 members")
     ti = m.func("Tree.iterator")
-    handled_in_tree = set()
-    for n in iter_own(ti.node):
-        if isinstance(n, ast.Compare) and len(n.ops) == 1 and isinstance(n.ops[0], ast.Eq):
-            t = norm(n.comparators[0])
-            if t.startswith("IterMethod."):
-                handled_in_tree.add(t.split(".", 1)[1])
+    from .util import exit_cases, path_conds as _pcs, resolve_expr as _rx
+
+    def methods_under(conds) -> Set[str]:
+        """IterMethod members for which a statement with these path conditions can run"""
+        ms = set(vals)
+        for a_, pol in conds:
+            if isinstance(a_, ast.Compare) and len(a_.ops) == 1 and norm(a_.left) == "method":
+                rhs = a_.comparators[0]
+                names = [norm(x).split(".", 1)[1] for x in (rhs.elts if isinstance(rhs, (ast.Tuple, ast.List, ast.Set)) else [rhs]) if norm(x).startswith("IterMethod.")]
+                if isinstance(a_.ops[0], (ast.Eq, ast.In, ast.Is)):
+                    ms = (ms & set(names)) if pol else (ms - set(names))
+        return ms
+
+    handled_in_tree: Set[str] = set()
+    tree_src: Dict[str, str] = {}
+    for c_ in exit_cases(ctx, ti, ("return", "yield")):
+        if c_.value is None:
+            continue
+        v_ = _rx(ctx, ti, c_.stmt, c_.value)
+        if any(isinstance(x, ast.Call) and isinstance(x.func, ast.Attribute) and x.func.attr == "iterator" for x in ast.walk(v_)):
+            continue  # delegated to the root's ordered walk
+        for mname in methods_under(c_.conds):
+            handled_in_tree.add(mname)
+            tree_src[mname] = norm(v_)
     node_methods = m.classes["Node"].methods
     for member, v in sorted(vals.items()):
         if member in handled_in_tree:
@@ -141,18 +159,15 @@ def exh1(ctx: Ctx) -> List[Ob]:
     obs.append(ctx.ob("EXH-1", ["C06"], g, "_iter_level defaults: revert=False, toggle=False (plain level order)", None, ok,
                       "" if ok else "LEVEL_ORDER would run right-to-left or zigzag"))
     # Tree.iterator: sources
-    src_ok = {"UNORDERED": False, "RANDOM_ORDER": False}
-    for n in iter_own(ti.node):
-        if isinstance(n, ast.If):
-            t = norm(n.test)
-            for member in src_ok:
-                if t.endswith(f"IterMethod.{member}"):
-                    body_txt = " ".join(norm(s) for s in n.body)
-                    if "self._node_by_id.values()" in body_txt and ("shuffle" in body_txt) == (member == "RANDOM_ORDER"):
-                        src_ok[member] = True
-    for member, ok in src_ok.items():
-        obs.append(ctx.ob("EXH-1", ["C06"], ti, f"Tree.iterator({member}) yields the values of the id map", None, ok,
-                          "" if ok else "the unordered/random traversal must be a permutation of the registered nodes"))
+    for member in ("UNORDERED", "RANDOM_ORDER"):
+        src = tree_src.get(member)
+        ok = None
+        if src is not None:
+            shuffled = any(isinstance(x, ast.Call) and norm(x.func).endswith("shuffle") for x in ast.walk(ti.node)
+                           if member in methods_under(_pcs(ctx, ti, x)))
+            ok = "self._node_by_id.values()" in src and shuffled == (member == "RANDOM_ORDER")
+        obs.append(ctx.tri("EXH-1", ["C06"], ti, f"Tree.iterator({member}) yields the values of the id map", None, ok,
+                           "the unordered/random traversal must be a permutation of the registered nodes"))
     deleg = [c for c in ctx.env.calls_in[ti] if any(g.qualname == "Node.iterator" for g, _ in ctx.env.callees(ti, c))]
     ok = bool(deleg) and norm(deleg[0].func.value) in ("self._root", "self.system_root") and any(
         k.arg == "method" and norm(k.value) == "method" for k in deleg[0].keywords) or (bool(deleg) and deleg[0].args and norm(deleg[0].args[0]) == "method")
@@ -283,11 +298,17 @@ def order_trav(ctx: Ctx) -> List[Ob]:
                 lv = gens[0].target.id if gens and isinstance(gens[0].target, ast.Name) else None
             else:
                 resets = _top_index(wl.body, lambda st: isinstance(st, (ast.Assign, ast.AnnAssign)) and norm(st.targets[0] if isinstance(st, ast.Assign) else st.target) == nxt
-                                    and isinstance(st.value, ast.List) and not st.value.elts)
-                ok = bool(resets) and resets[0] == 0
+                                    and isinstance(st.value, (ast.List, ast.ListComp, ast.Call)))
+                ok = bool(resets) and not any(isinstance(x, (ast.Yield, ast.YieldFrom)) for st_ in wl.body[: resets[0]] for x in ast.walk(st_)) \
+                    and not any(isinstance(x, ast.Name) and x.id == nxt for st_ in wl.body[: resets[0]] for x in ast.walk(st_))
                 obs.append(ctx.ob("ORDER-TRAV", ["C06"], f, f"{name}: the next-level list is reset for every level", None, bool(ok),
                                   "" if ok else "a next-level list that is not reset re-emits earlier levels"))
                 if len(fors) != 1 or not isinstance(fors[0].target, ast.Name):
+                    if name == "_iter_level" and resets and isinstance(wl.body[resets[0]].value, ast.Call):
+                        # built by one expression (e.g. list(chain.from_iterable(...))): not read by this block
+                        obs.append(ctx.tri("ORDER-TRAV", ["C06"], f, f"{name}: the next level is built by extending with each node's children, once, in order", None, None,
+                                           f"next level is `{norm(wl.body[resets[0]].value)}`"))
+                        continue
                     raise AnalysisError(f"{f.qualname}: expected one loop over the current level")
                 fl = fors[0]
                 lv = fl.target.id
